@@ -79,6 +79,17 @@ def candidates (mime : Str) : List Str :=
   | none => [mime, base mime]
   | some t => [mime, base mime, t ++ slashStar, star]
 
+/-- the documented precedence, key by key (independent of any search order): how specifically a declared key `k`
+matches the header text — 0 the exact text, 1 the text without parameters, 2 `type/*`, 3 `*/*`; `none`: no match.
+An empty header is matched by `*/*` only; a text without '/' is not matched by wildcards. -/
+def rank (mime k : Str) : Option Nat :=
+  if mime = [] then (if k = star then some 3 else none)
+  else if k = mime then some 0
+  else if k = base mime then some 1
+  else match majorType (base mime) with
+    | none => none
+    | some t => if k = t ++ slashStar then some 2 else if k = star then some 3 else none
+
 def firstSome {α : Type} (c : List (Str × α)) : List Str → Option α
   | [] => none
   | k :: ks => match lookup k c with | some v => some v | none => firstSome c ks
